@@ -200,8 +200,19 @@ func isFunc(t reflect.Type) bool {
 }
 
 func fieldType(ntype reflect.Type, name string) (reflect.Type, bool) {
+	return fieldTypeIn(ntype, name, make(map[reflect.Type]bool))
+}
+
+// fieldTypeIn looks the field up; the embedding set holds the struct types on the
+// current embedding path (a struct may embed a pointer to itself).
+func fieldTypeIn(ntype reflect.Type, name string, embedding map[reflect.Type]bool) (reflect.Type, bool) {
 	ntype = dereference(ntype)
+	if ntype != nil && embedding[ntype] {
+		return nil, false
+	}
 	if ntype != nil {
+		embedding[ntype] = true
+		defer delete(embedding, ntype)
 		switch ntype.Kind() {
 		case reflect.Interface:
 			return interfaceType, true
@@ -218,7 +229,7 @@ func fieldType(ntype reflect.Type, name string) (reflect.Type, bool) {
 			for i := 0; i < ntype.NumField(); i++ {
 				f := ntype.Field(i)
 				if f.Anonymous {
-					if t, ok := fieldType(f.Type, name); ok {
+					if t, ok := fieldTypeIn(f.Type, name, embedding); ok {
 						return t, true
 					}
 				}
@@ -232,7 +243,17 @@ func fieldType(ntype reflect.Type, name string) (reflect.Type, bool) {
 }
 
 func methodType(t reflect.Type, name string) (reflect.Type, bool, bool) {
+	return methodTypeIn(t, name, make(map[reflect.Type]bool))
+}
+
+// methodTypeIn is methodType with the set of types on the current embedding path.
+func methodTypeIn(t reflect.Type, name string, embedding map[reflect.Type]bool) (reflect.Type, bool, bool) {
+	if t != nil && embedding[t] {
+		return nil, false, false
+	}
 	if t != nil {
+		embedding[t] = true
+		defer delete(embedding, t)
 		// First, check methods defined on type itself,
 		// independent of which type it is.
 		if m, ok := t.MethodByName(name); ok {
@@ -267,7 +288,7 @@ func methodType(t reflect.Type, name string) (reflect.Type, bool, bool) {
 			for i := 0; i < d.NumField(); i++ {
 				f := d.Field(i)
 				if f.Anonymous {
-					if t, method, ok := methodType(f.Type, name); ok {
+					if t, method, ok := methodTypeIn(f.Type, name, embedding); ok {
 						return t, method, true
 					}
 				}
